@@ -9,7 +9,9 @@ CONSTANTS
   FixDup = TRUE
   AutoSave = FALSE
   MaxEnv = 0
+  Names = FALSE
+  RoundRobin = FALSE
   FullLast = FALSE
   DupAlso = FALSE
-INVARIANTS Safe SafeWire NeverCompleteOnDamage CompleteWhenInOrder DupIsTheOnlyDeviation ClassesAgree CompleteWithDup EmitScn
+INVARIANTS Safe SafeWire NeverCompleteOnDamage CompleteWhenInOrder DupIsTheOnlyDeviation ClassesAgree CompleteWithDup IdxDesignates EmitScn
 CHECK_DEADLOCK FALSE
